@@ -21,6 +21,8 @@ const STARTS: [u32; 8] = [0, 1, 9000, 0x7FFF_FFFF, 0x8000_0000, 0xFFFF_FFFD, 0xF
 struct Hist {
     creds: Vec<(Vec<u8>, Option<u32>, bool)>, // id, start counter, has prf secrets
     steps: Vec<(usize, bool)>,               // credential index, request prf
+    /// the k-th counter update of the history is refused by the store with this status
+    update_fault: Option<(usize, u8)>,
     register_first: bool,
     counters_cfg: bool,
 }
@@ -42,7 +44,8 @@ fn gen(seed: u64, idx: u64) -> Hist {
     }
     let len = rng.range(5, 50);
     let steps = (0..len).map(|_| (rng.below(n), rng.chance(1, 3))).collect();
-    Hist { creds, steps, register_first: rng.chance(1, 3), counters_cfg: rng.bool() }
+    let update_fault = if rng.chance(1, 3) { Some((rng.below(6), *rng.pick(&[0x28u8, 0x7F, 0x01, 0x2E, 0xF0]))) } else { None };
+    Hist { creds, steps, update_fault, register_first: rng.chance(1, 3), counters_cfg: rng.bool() }
 }
 
 fn start_class(h: &Hist) -> String {
@@ -67,7 +70,7 @@ pub fn describe(args: &Args, idx: u64) -> CaseDesc {
         decoder: "get_assertion-history".into(),
         mutation: start_class(&h),
         case: json!({"credentials": h.creds.iter().map(|c| json!({"id": hex_short(&c.0), "start": c.1, "prf_secrets": c.2})).collect::<Vec<_>>(),
-            "steps": h.steps.len(), "register_first": h.register_first, "counters_configured": h.counters_cfg}),
+            "steps": h.steps.len(), "update_fault": h.update_fault, "register_first": h.register_first, "counters_configured": h.counters_cfg}),
     }
 }
 
@@ -110,6 +113,9 @@ pub fn iso_case(args: &Args, idx: u64) -> CaseOut {
             has_prf.push(false);
             out.counters.push(("registrations".into(), 1));
         }
+    }
+    if let Some((nth, code)) = h.update_fault {
+        rig.store.set_fault(crate::collab::Kind::Update, nth, code);
     }
     let mut assertions = 0u64;
     let mut boundary = 0u64;
